@@ -299,6 +299,12 @@ Proof.
     rewrite (hardened_from_public_refused P LH path x S). reflexivity.
 Qed.
 
+Lemma good_pkhash pk : good (CPkHash pk).
+Proof.
+  unfold good. cbn [model_obs]. unfold obs_pkhash.
+  destruct (kt_from_binary_cases T_pk pk) as [E|E]; rewrite E; split; reflexivity.
+Qed.
+
 Lemma good_bip39 e pw : good (CBip39 e pw).
 Proof.
   laws. unfold good. cbn [model_obs]. unfold obs_bip39.
@@ -373,6 +379,7 @@ Proof.
   - apply good_sign; apply H.
   - apply good_wit; exact H.
   - apply good_derive; exact H.
+  - apply good_pkhash.
   - apply good_pubderive.
   - apply good_bip39.
   - apply good_x128; exact H.
